@@ -5,14 +5,27 @@ from simlib import evmodel, models, vt
 from simlib.core import Outcome
 
 
-def run_real(sc, build, follow=False):
+def sub_times(sc):
+    """subscription instants of a scenario: the same observable object is subscribed once or twice"""
+    return [sc["sub_t"]] + ([sc["sub2_t"]] if sc.get("sub2_t") is not None else [])
+
+
+def run_real_multi(sc, build, follow=False):
     w = vt.World(sc.get("clock", "test"))
     vt.make_sources(w, sc["sources"])
     obs = build(w, sc)
-    rec = vt.Recorder(w, "r", follow=follow)
-    w.at(sc["sub_t"], lambda: _sub(rec, obs))
+    recs = []
+    for i, t in enumerate(sub_times(sc)):
+        rec = vt.Recorder(w, "r" if i == 0 else "r%d" % i, follow=follow)
+        recs.append(rec)
+        w.at(t, (lambda rec=rec: _sub(rec, obs)))
     w.run(sc["horizon"])
-    return w, rec
+    return w, recs
+
+
+def run_real(sc, build, follow=False):
+    w, recs = run_real_multi(sc, build, follow)
+    return w, recs[0]
 
 
 def _sub(rec, obs):
@@ -22,9 +35,9 @@ def _sub(rec, obs):
         rec.events.append((rec.w.tick(), rec.w.now(), "E", e))
 
 
-def run_model(sc, model):
+def run_model(sc, model, t=None):
     eng = evmodel.Engine(sc["sources"])
-    eng.now = float(sc["sub_t"])
+    eng.now = float(sc["sub_t"] if t is None else t)
     model(eng, sc)
     eng.run(sc["horizon"])
     return eng
@@ -42,30 +55,42 @@ def real_intervals(w, drop_empty=False):
 
 
 def compare(sc, build, model, out, desc, check_intervals=True, drop_empty=False, post=None):
-    """Run the real pipeline and the reference interpreter; fill `out`.  Returns (w, rec, eng) or None on a tie."""
-    w, rec = run_real(sc, build)
-    got = models.norm(rec.events_kv())
+    """Run the real pipeline (the same observable object subscribed at every instant of sub_times) and the reference
+    interpreter once per subscription; fill `out`.  Returns (w, rec, eng) of the first subscription or None on a tie."""
+    w, recs = run_real_multi(sc, build)
     out.sim_time = sc["horizon"]
-    g = vt.grammar_violation(rec)
-    if g:
-        out.bad("grammar", "%s: %s" % (desc, g))
-    if w.escaped:
-        out.bad("escaped", "%s: %r" % (desc, w.escaped[0][2:]))
-    try:
-        eng = run_model(sc, model)
-    except models.Tie:
-        out.probes["tie_skipped"] += 1
-        out.digest = ("tie", desc)
-        return None
-    want = models.norm(eng.out)
-    out.nontrivial = len(got) >= 2
-    if want != got:
-        out.bad("model-mismatch", "%s: expected %s, got %s" % (desc, want[:12], got[:12]))
-        return w, rec, eng
+    first = None
+    all_model_iv = {}
+    for i, (t, rec) in enumerate(zip(sub_times(sc), recs)):
+        tag = desc if i == 0 else "%s [second subscription of the same observable at t=%s]" % (desc, t)
+        got = models.norm(rec.events_kv())
+        g = vt.grammar_violation(rec)
+        if g:
+            out.bad("grammar", "%s: %s" % (tag, g))
+        if w.escaped:
+            out.bad("escaped", "%s: %r" % (tag, w.escaped[0][2:]))
+        try:
+            eng = run_model(sc, model, t)
+        except models.Tie:
+            out.probes["tie_skipped"] += 1
+            out.digest = ("tie", desc)
+            return None
+        want = models.norm(eng.out)
+        if i == 0:
+            out.nontrivial = len(got) >= 2
+            first = (w, rec, eng)
+        else:
+            out.probes["second_subscription_checked"] += 1
+        if want != got:
+            out.bad("model-mismatch", "%s: expected %s, got %s" % (tag, want[:12], got[:12]))
+            return first
+        for k, v in eng.intervals().items():
+            all_model_iv.setdefault(k, []).extend(v)
     if check_intervals:
         ri = real_intervals(w, drop_empty)
-        mi = {k: [i for i in v if not (drop_empty and i[0] == i[1])] for k, v in eng.intervals().items()}
+        ri = {k: sorted(v, key=repr) for k, v in ri.items()}
+        mi = {k: sorted([i for i in v if not (drop_empty and i[0] == i[1])], key=repr) for k, v in all_model_iv.items()}
         mi = {k: v for k, v in mi.items() if v}
         if ri != mi:
             out.bad("subscription-intervals", "%s: source subscription intervals %s, expected %s" % (desc, ri, mi))
-    return w, rec, eng
+    return first
